@@ -201,13 +201,18 @@ def check(spec):
     eq = [is_equidistant(p["freqs"]) for p in params]
     labels.append("all-equidistant" if all(eq) else "non-equidistant")
 
+    def _one_gap(fs):
+        fs = sorted(fs)
+        return len(fs) >= 2 and len({round(b - a, 9) for a, b in zip(fs, fs[1:])}) == 1
+
+    # per parameter: equal gaps that differ from the smallest frequency (every non-harmonic pair is such a set)
+    ego = [(not e) and _one_gap(p["freqs"]) for e, p in zip(eq, params)]
     feats = {
         "mode": spec["mode"],
         "equidistant": all(eq),
-        "equal_gap_offset": any(
-            (not e) and len(p["freqs"]) >= 2 and len({round(b - a, 9) for a, b in zip(sorted(p["freqs"]), sorted(p["freqs"])[1:])}) == 1
-            for e, p in zip(eq, params)),
-        "default_shifts": all(p["shifts"] is None or p["shifts"] == "default-explicit" for p in params),
+        "equal_gap_offset": any(ego),
+        "equal_gap_offset_with_default_shifts": any(
+            g and p["shifts"] in (None, "default-explicit") for g, p in zip(ego, params)),
     }
 
     if spec["mode"] == "single":
@@ -229,7 +234,9 @@ def check(spec):
         raise Reject("documented warning: near zero determinant")
 
     rule = np.asarray(rule, dtype=float)
-    sig = "equal-gap-offset" if feats["equal_gap_offset"] else ("equidistant" if feats["equidistant"] else "general")
+    sig = ("equal-gap-offset+default-shifts" if feats["equal_gap_offset_with_default_shifts"] else
+           "equal-gap-offset+explicit-shifts" if feats["equal_gap_offset"] else
+           "equidistant" if feats["equidistant"] else "general")
     if rule.ndim != 2 or rule.shape[1] != ncols or rule.shape[0] < 1:
         raise Viol("shape", f"{_brief(spec)}: rule shape {rule.shape}", sig=sig, features=feats)
     if not np.all(np.isfinite(rule)):
